@@ -658,12 +658,15 @@ def stress_traces(ctx, pid, binp):
     import subprocess
     quick = ctx.tier == "quick"
     files = []
-    for k in range(3 if quick else 16):
+    for k in range(4 if quick else 16):
         tf = os.path.join(ctx.scratch, "stress-%d.ndjson" % k)
         env = dict(os.environ)
         env["VERIF_TRACE"] = tf
         try:
-            p = subprocess.run([binp, "stress", "-seed", str(ctx.seed * 100 + k), "-rounds", "3" if quick else "4"],
+            # every second run also has partial elections (a node is left out, fenced and added later) and
+            # node crashes with loss of the unsynced WAL tail and of the unflushed DB state
+            faults = ["-faults"] if k % 2 == 1 else []
+            p = subprocess.run([binp, "stress", "-seed", str(ctx.seed * 100 + k), "-rounds", "3" if quick else "4"] + faults,
                                env=env, capture_output=True, text=True, timeout=300)
         except subprocess.TimeoutExpired:
             ctx.log("stress run %d timed out (skipped)" % k)
